@@ -91,16 +91,17 @@ func qTriBall(t *model3d.Triangle, ctr q3, qq *big.Rat) bool {
 	return qlt(new(big.Rat).Mul(wn, wn), new(big.Rat).Mul(qq, nn))
 }
 
-// exact Möller–Trumbore: the closed segment s0s1 meets the closed triangle (non-coplanar case)
-// second result: the configuration is coplanar/parallel (library reports nothing: skip)
-func qTriSegment(t *model3d.Triangle, s0, s1 q3) (hit bool, parallel bool) {
+// exact Möller–Trumbore for the segment s0s1 against the triangle: strict = the segment crosses the open
+// triangle at an interior point of the segment (general position), closed = they meet at all (boundary
+// contacts included); parallel = coplanar/parallel configuration (the library reports nothing).
+func qTriSegment(t *model3d.Triangle, s0, s1 q3) (strict, closed, parallel bool) {
 	a, b, c := qv(t[0]), qv(t[1]), qv(t[2])
 	d := qsub(s1, s0)
 	v1, v2 := qsub(b, a), qsub(c, a)
 	cross1 := qcross(d, v2)
 	det := qdot(cross1, v1)
 	if det.Sign() == 0 {
-		return false, true
+		return false, false, true
 	}
 	inv := new(big.Rat).Inv(det)
 	o := qsub(s0, a)
@@ -109,7 +110,9 @@ func qTriSegment(t *model3d.Triangle, s0, s1 q3) (hit bool, parallel bool) {
 	v := new(big.Rat).Mul(inv, qdot(d, cross2))
 	tt := new(big.Rat).Mul(inv, qdot(v2, cross2))
 	uv := new(big.Rat).Add(u, v)
-	return u.Sign() >= 0 && v.Sign() >= 0 && qle(uv, qOne) && tt.Sign() >= 0 && qle(tt, qOne), false
+	closed = u.Sign() >= 0 && v.Sign() >= 0 && qle(uv, qOne) && tt.Sign() >= 0 && qle(tt, qOne)
+	strict = u.Sign() > 0 && v.Sign() > 0 && qlt(uv, qOne) && tt.Sign() > 0 && qlt(tt, qOne)
+	return strict, closed, false
 }
 
 // Sutherland–Hodgman clipping of the triangle against the closed box; returns the clipped polygon.
@@ -221,15 +224,18 @@ func runSoupQueries(c *hlib.Ctx, n int) {
 			}
 			want, ambiguous := false, false
 			for _, t := range tris {
-				h, par := qTriSegment(t, qv(s0), qv(s1))
-				if par {
-					ambiguous = true // coplanar / parallel segment: the library documents no answer
+				strict, closed, par := qTriSegment(t, qv(s0), qv(s1))
+				if par || (closed && !strict) {
+					// coplanar / parallel, or a contact exactly on an edge, a vertex or a segment end
+					// point: outside general position, rounding decides
+					ambiguous = true
 				}
-				if h {
+				if strict {
 					want = true
 				}
 			}
 			if ambiguous && !want {
+				c.Stat("soup.segment.boundary-skipped", 1)
 				continue
 			}
 			got := col.SegmentCollision(model3d.NewSegment(s0, s1))
